@@ -13,7 +13,16 @@ static inline bool is_builtin_name(const std::string& n)
     for (auto b : B) if (n == b) return true;
     return false;
 }
-struct DumpOpt { bool positions = false; bool types = true; bool bodies = true; };
+struct DumpOpt { bool positions = false; bool types = true; bool bodies = true; bool bindings = true; };
+// what every identifier of an expression is bound to: name and type of the symbol, in tree order (two symbols of the same name print alike, their
+// types usually do not: a global int and a select / quantifier binder of the same name differ here)
+static inline void bind_sig(std::string& o, const expression_t& e)
+{
+    if (e.empty()) return;
+    if (e.get_kind() == IDENTIFIER) { symbol_t y = e.get_symbol(); if (y == symbol_t()) o += " ?"; else o += " " + y.get_name() + ":" + tstr(y.get_type()); return; }
+    for (size_t i = 0; i < e.get_size(); i++) bind_sig(o, e[i]);
+}
+static inline std::string xsb(const expression_t& e, const DumpOpt& opt) { std::string o = xs(e); if (opt.bindings && !e.empty()) { o += " <"; bind_sig(o, e); o += " >"; } return o; }
 
 static inline void dump_decls(std::string& o, declarations_t& d, const std::string& pfx, const DumpOpt& opt)
 {
@@ -36,13 +45,14 @@ static inline std::string dump_edge(edge_t& e, const DumpOpt& opt)
 {
     std::string o = "edge#" + std::to_string(e.nr) + " " + end_name(e.src, e.srcb) + " -> " + end_name(e.dst, e.dstb) + (e.control ? " ctrl" : " unctrl") + " select[";
     for (size_t k = 0; k < e.select.get_size(); k++) o += (k ? "," : "") + e.select[k].get_name() + (opt.types ? ":" + tstr(e.select[k].get_type()) : "");
-    o += "] guard{" + xs(e.guard) + "} sync{" + xs(e.sync) + "} assign{" + xs(e.assign) + "} prob{" + xs(e.prob) + "}";
+    o += "] guard{" + xsb(e.guard, opt) + "} sync{" + xsb(e.sync, opt) + "} assign{" + xsb(e.assign, opt) + "} prob{" + xsb(e.prob, opt) + "}";
     return o;
 }
 static inline std::string dump_location(location_t& l)
 {
     std::string fl = l.uid.get_type().is(URGENT) ? " urgent" : l.uid.get_type().is(COMMITTED) ? " committed" : "";
-    return "loc#" + std::to_string(l.nr) + " " + l.uid.get_name() + fl + " inv{" + xs(l.invariant) + "} rate{" + xs(l.exp_rate) + "}";
+    DumpOpt opt;
+    return "loc#" + std::to_string(l.nr) + " " + l.uid.get_name() + fl + " inv{" + xsb(l.invariant, opt) + "} rate{" + xsb(l.exp_rate, opt) + "}";
 }
 static inline void dump_instance(std::string& o, instance_t& p, const char* what, const DumpOpt& opt)
 {
